@@ -510,6 +510,11 @@ func c02Gen(tier string, rng *rand.Rand, emit func(Case)) {
 		}
 		emit(Case{Line: fmt.Sprintf("rx %d %d %s", rng.Intn(2), rng.Intn(2), strings.Join(toks, " ")), Kind: "history"})
 	}
+	brokenThenNextGen(tier, rng, emit)
+	// several connections in one process: a header split by A's transport while B receives
+	for k := 1; k <= 7; k++ {
+		emit(Case{Line: fmt.Sprintf("rxsplit %d %d", k, rng.Intn(1<<20)), Kind: "two-connections"})
+	}
 	// header-only packets interleaved
 	for i := 0; i < 20; i++ {
 		resp := randomResponse(rng, true)
@@ -617,8 +622,77 @@ func c02Impl(line string) string {
 		return rdImpl(line)
 	case strings.HasPrefix(line, "use "):
 		return useImpl(line)
+	case strings.HasPrefix(line, "rxsplit "):
+		return rxSplitImpl(line)
 	}
 	return "bad-op"
+}
+
+// rxsplit <k> <seed> (oracle only): two connections of one process, each with its reader goroutine over its
+// own transport. Connection A's transport hands over the first k bytes of a packet header, then connection
+// B receives a complete packet with another header, then A gets the rest. What A delivers must be what it
+// delivers when its packet arrives in one piece — reader state is per connection.
+func rxSplitImpl(line string) string {
+	f := strings.Fields(line)
+	if len(f) != 3 {
+		return "bad-op"
+	}
+	k, e1 := strconv.Atoi(f[1])
+	seed, e2 := strconv.Atoi(f[2])
+	if e1 != nil || e2 != nil || k < 1 || k > 7 {
+		return "bad-op"
+	}
+	rng := rand.New(rand.NewSource(int64(seed)))
+	bodyA := append(rMsg(1+rng.Intn(40)).bytes, rDone(16, 1+rng.Intn(90)).bytes...)
+	pktA := packetize(bodyA, nil, 4, 0)
+	// B's packet differs from A's in every header byte the first k can hold: type, status (not EOM), length
+	bodyB := append(rMsg(1+rng.Intn(40)).bytes, rDone(1, rng.Intn(90)).bytes...)
+	bodyB = append(bodyB, rndBytes(rng, 300+rng.Intn(300))...)
+	pktB := append([]byte{15, 0, byte((len(bodyB) + 8) >> 8), byte(len(bodyB) + 8), 0, 0, 7, 3}, bodyB...)
+	run := func(split bool) string {
+		mk := func() (*memConn, *tds.Conn, *tds.Channel) {
+			mc := newMemConn()
+			conn, _ := tds.VerifNewConn(context.Background(), mc, testInfo(), true)
+			return mc, conn, conn.VerifNewChannel(0)
+		}
+		mcA, connA, chA := mk()
+		defer connA.VerifCancel()
+		if split {
+			mcB, connB, chB := mk()
+			defer connB.VerifCancel()
+			mcA.feed(pktA[:k])
+			time.Sleep(3 * time.Millisecond)
+			mcB.feed(pktB)
+			for i := 0; i < 100; i++ {
+				if q, _ := chB.VerifQueued(); q >= 2 {
+					break
+				}
+				time.Sleep(time.Millisecond)
+			}
+			mcA.feed(pktA[k:])
+		} else {
+			mcA.feed(pktA)
+		}
+		var del []string
+		for {
+			ctx, cancel := context.WithTimeout(context.Background(), 150*time.Millisecond)
+			pkg, err := chA.NextPackage(ctx, true)
+			cancel()
+			if err != nil || pkg == nil {
+				break
+			}
+			del = append(del, showDelivered(pkg))
+		}
+		return strings.Join(del, " | ")
+	}
+	whole, split := run(false), run(true)
+	if whole != split {
+		return "what a connection delivers does not depend on how its transport splits a packet header, whatever other connections of the process receive meanwhile (whole: [" + clip(whole, 80) + "], split: [" + clip(split, 80) + "])"
+	}
+	if !strings.Contains(whole, "done") {
+		return "bad-op"
+	}
+	return "ok rxsplit"
 }
 
 // ---------------------------------------------------------------------------------------------
@@ -778,7 +852,14 @@ func useImpl(line string) string {
 func init() {
 	register(&Prop{
 		ID: "C02", Gen: c02Gen, Impl: c02Impl,
+		NoModel: func(line string) bool { return strings.HasPrefix(line, "rxsplit ") },
 		Oracle: func(line, out string) string {
+			if strings.HasPrefix(line, "rxsplit ") {
+				if strings.HasPrefix(out, "ok") {
+					return ""
+				}
+				return out
+			}
 			if strings.HasPrefix(line, "rd ") {
 				return registry["C02rd"].Oracle(line, out)
 			}
@@ -790,4 +871,54 @@ func init() {
 		Rule:        "channel layer: random responses (DONE variants, EED info/non-info, ENVCHANGE incl. PACKSIZE, MSG, RETURNSTATUS, LOGINACK; 0..2 hooks of each kind) fed to the real Channel.WritePacket whole, with every single cut, all pairs of cuts of short responses, random cut sets, one-byte bodies, all 2^(n-1) cut sets of short streams, interleaved header-only packets, histories of 2..3 responses on one channel where the later ones are the fragmented ones, and result / parameter sets (format, 1..3 data packages over the data types of the fields group, messages between format and data; every single cut of short ones, random cut sets) — compared with the whole-response run of the real code (oracle) and with the Lean receive model; packet layer: the complete stream through the real reader goroutine with read schedules that split headers and bodies. Non-trivial = at least two packets",
 		Assumptions: []string{"responses are built from the package kinds of the codec registry (Basic, Cursor, Fields without BLOB columns)", "net.Conn read semantics for the packet layer"},
 	})
+}
+
+// truncatedTail: bytes that start a package which the end of the message cuts short (a DONE, an EED, a
+// length-prefixed package announcing more than follows) or a token the library does not know.
+func truncatedTail(rng *rand.Rand) []byte {
+	switch rng.Intn(4) {
+	case 0:
+		d := rDone(0, rng.Intn(50)).bytes
+		return d[:1+rng.Intn(len(d)-1)]
+	case 1:
+		e := rEED(1000+rng.Intn(100), false, "cut short\n").bytes
+		return e[:1+rng.Intn(len(e)-1)]
+	case 2:
+		return append([]byte{0xE3, byte(20 + rng.Intn(200)), 0}, rndBytes(rng, rng.Intn(12))...)
+	default:
+		return append([]byte{[]byte{0x0B, 0x4F, 0x90, 0xF0}[rng.Intn(4)]}, rndBytes(rng, rng.Intn(20))...)
+	}
+}
+
+func brokenThenNextGen(tier string, rng *rand.Rand, emit func(Case)) {
+	// a response whose last packet (EOM) ends in a package that never completes — cut short, or a token the
+	// library does not know — followed by further responses that arrive in small packets: what is left of
+	// the broken response (bytes, read position) must not leak into the next one
+	nt := 120
+	if tier == "thorough" {
+		nt = 1500
+	}
+	for i := 0; i < nt; i++ {
+		var toks []string
+		body := respBytes(randomResponse(rng, false))
+		body = append(body, truncatedTail(rng)...)
+		toks = append(toks, cutTokens(body, randomCuts(rng, len(body), rng.Intn(3)))...)
+		for j := 0; j < 1+rng.Intn(2); j++ {
+			next := respBytes(randomResponse(rng, rng.Intn(2) == 0))
+			if len(next) < 3 {
+				next = append(next, rDone(0, 1).bytes...)
+			}
+			// a small first packet, then the rest in one or several packets
+			first := 1 + rng.Intn(6)
+			if first >= len(next) {
+				first = len(next) - 1
+			}
+			cuts := []int{first}
+			if rng.Intn(2) == 0 && len(next)-first > 2 {
+				cuts = append(cuts, first+1+rng.Intn(len(next)-first-1))
+			}
+			toks = append(toks, cutTokens(next, cuts)...)
+		}
+		emit(Case{Line: fmt.Sprintf("rx %d %d %s", rng.Intn(2), rng.Intn(2), strings.Join(toks, " ")), Kind: "broken-response-then-next"})
+	}
 }
